@@ -541,6 +541,15 @@ class Fmm:
              "perm": perm_named(pk, rank), "cst_shape": rng.choice([[], [], [1], [1, 1], [2]]),
              "cst": rng.choice([2.0, 0.5, 8.0, -3.0, 1.0]), "cst_const": rng.random() < 0.9,
              "noncube": False}
+        # mixed ranks (2 vs >= 3, both operand positions), incl. perm-less Transposes that reverse every axis
+        if kind in ("t1", "t2", "mt") and rng.random() < 0.35:
+            xr, yr = rng.choice([(2, 3), (3, 2), (2, 4), (4, 2), (3, 4)])
+            opr = xr if kind == "t1" else yr if kind == "t2" else max(xr, yr)
+            pk = rng.choice(["none", "none", "swap", "rev", "id", "rotL"])
+            c.update(xrank=xr, yrank=yr, perm_kind=pk, perm=perm_named(pk, opr))
+            if inner is not None:
+                inner.update(transBatchA=None, transBatchB=None)
+            return c
         # a few non-cube instances of the basic rules (shapes derivable by hand)
         if kind in ("t1", "t2") and inner is None and pk in ("swap", "none") and rng.random() < 0.7:
             if pk == "swap" or rank == 2:
@@ -557,7 +566,7 @@ class Fmm:
             if c["kind"] == "t1":
                 return bt + [K, M], bt + [K, N]
             return bt + [M, K], bt + [N, K]
-        return [n] * r, [n] * r
+        return [n] * c.get("xrank", r), [n] * c.get("yrank", r)
 
     @staticmethod
     def build(c):
@@ -597,7 +606,8 @@ class Fmm:
         inner = "none" if i is None else ",".join(
             [o(i["transA"]), o(i["transB"]), o(i["transBatchA"]), o(i["transBatchB"]),
              "none" if i["alpha"] is None else fbits(f32(i["alpha"]))])
-        return " ".join(["fmm", f"kind={c['kind']}", f"rank={c['rank']}", f"inner={inner}",
+        return " ".join(["fmm", f"kind={c['kind']}", f"rank={c['rank']}", f"xrank={c.get('xrank', c['rank'])}",
+                         f"yrank={c.get('yrank', c['rank'])}", f"inner={inner}",
                          "perm=" + ("none" if c["perm"] is None else ",".join(map(str, c["perm"]))),
                          f"cst_const={b(c['cst_const'])}", f"cst_shape={dims_str(c['cst_shape'])}",
                          f"cst={fbits(f32(c['cst']))}"])
@@ -1487,7 +1497,7 @@ class Mhab:
         vv = addb(v, "vbias", c["vb"], "D")
         if c["pre_scale"] is not None:
             sc = g.const(np.array(c["pre_scale"], dtype=NP[dt])) if c["scale_const"] else g.inp("sc", dt, [])
-            qq = g.op("Mul", qq, sc)
+            qq = g.op("Mul", qq, sc, name="qmul")
         ins = [qq, kk, vv]
         if c["mask"]:
             m = g.inp("mask", dt, [1, 1, S, Skv])
@@ -1505,6 +1515,7 @@ class Mhab:
         sh = shapes or {}
         return " ".join(["mhab", f"qm={dims_str(sh.get('qm'))}", f"km={dims_str(sh.get('km'))}", f"vm={dims_str(sh.get('vm'))}",
                          f"qbias={dims_str(sh.get('qbias')) if c['qb'] else 'absent'}",
+                         f"qmul={dims_str(sh.get('qmul')) if 'qmul' in sh else 'absent'}",
                          f"dt={DTNUM[c['dt']]}", f"qb={b(c['qb'])}", f"kb={b(c['kb'])}", f"vb={b(c['vb'])}",
                          f"bias_first={b(c['bias_first'])}", f"heads={c['H']}",
                          "pre=" + ("none" if c["pre_scale"] is None else fbits(float(np.asarray(c["pre_scale"], dtype=NP[c["dt"]])))),
@@ -1538,4 +1549,95 @@ class Mhab:
         return "f32"
 
 
-FAMILIES = {f.name: f for f in [Rms, Skip, Gelu, BiasGelu, Softmax, Fmm, Rope, Sdpa, Mha, I2g, Attn, Gqa, Pqkv, Mhab]}
+
+# =========================================================================== pipeline level: attention block through fuse_xformers
+
+
+class Pipe:
+    """An attention block written with primitive ops whose query/key/value projections carry a scale and/or a bias
+    in either order, run through the WHOLE `fuse_xformers` pipeline (sdpa -> mha1/mha2 -> mha_scale -> mha_bias ->
+    attention -> ...).  What is tied: the counts of the four attention stages and the final MultiHeadAttention node
+    (which operands, bias, scale).  Oracle: onnxruntime before/after fuse_xformers and before/after optimize_for_ort."""
+
+    name = "pipe"
+    ops = {"MultiHeadAttention"}
+    key_op = "MultiHeadAttention"
+    always_e2e = True
+
+    @staticmethod
+    def gen(rng):
+        H = rng.choice([1, 2, 4])
+        Dh = rng.choice([2, 4, 8])
+        return {"fam": "pipe", "B": rng.choice([1, 2]), "S": rng.choice([1, 2, 3]), "H": H, "Dh": Dh,
+                "key_t": rng.random() < 0.6, "sdpa_scale": rng.choice(["default", "default", "custom", "none"]),
+                "q_proj": rng.choice(["none", "scale", "bias", "scale_bias", "scale_bias", "bias_scale", "bias_scale"]),
+                "kb": rng.random() < 0.4, "vb": rng.random() < 0.4, "s": rng.choice([0.5, 2.0, 0.125]),
+                "mask": rng.random() < 0.3, "sym": rng.random() < 0.2}
+
+    @staticmethod
+    def build(c):
+        g = G()
+        B, S, H, Dh = c["B"], c["S"], c["H"], c["Dh"]
+        D = H * Dh
+        Bs = "B" if c["sym"] else B
+        qm = g.inp("qm", "f32", [Bs, S, D])
+        km = g.inp("km", "f32", [Bs, S, D])
+        vm = g.inp("vm", "f32", [Bs, S, D])
+        sc = lambda: g.const(np.array(c["s"], dtype=np.float32))
+        qp = c["q_proj"]
+        q = qm
+        if qp in ("scale", "scale_bias"):
+            q = g.op("Mul", q, sc())
+        if qp in ("bias", "scale_bias", "bias_scale"):
+            q = g.op("Add", q, g.inp("qbias", "f32", [D]))
+        if qp == "bias_scale":
+            q = g.op("Mul", q, sc())
+        k = g.op("Add", km, g.inp("kbias", "f32", [D])) if c["kb"] else km
+        v = g.op("Add", vm, g.inp("vbias", "f32", [D])) if c["vb"] else vm
+        shp = lambda s_: g.const(np.array(s_, dtype=np.int64))
+        qh = g.op("Transpose", g.op("Reshape", q, shp([0, 0, H, Dh])), perm=[0, 2, 1, 3])
+        k4 = g.op("Reshape", k, shp([0, 0, H, Dh]))
+        vh = g.op("Transpose", g.op("Reshape", v, shp([0, 0, H, Dh])), perm=[0, 2, 1, 3])
+        if c["key_t"]:
+            kt = g.op("Transpose", g.op("Transpose", k4, perm=[0, 2, 1, 3]), perm=[0, 1, 3, 2])
+        else:
+            kt = g.op("Transpose", k4, perm=[0, 2, 3, 1])
+        att = g.op("MatMul", qh, kt)
+        if c["sdpa_scale"] != "none":
+            att = g.op("Mul", att, g.const(np.array(1.0 / math.sqrt(Dh) if c["sdpa_scale"] == "default" else 0.3, dtype=np.float32)))
+        if c["mask"]:
+            att = g.op("Add", att, g.inp("mask", "f32", [1, 1, S, S]))
+        o = g.op("MatMul", g.op("Softmax", att, axis=-1), vh)
+        g.op("Reshape", g.op("Transpose", o, perm=[0, 2, 1, 3]), shp([0, 0, D]), name="out")
+        g.out("out", "f32", None)
+        return g.model()
+
+    @staticmethod
+    def line(c, shapes=None):
+        sh = shapes or {}
+        return " ".join(["pipe", f"qm={dims_str(sh.get('qm'))}", f"heads={c['H']}", f"dh={c['Dh']}", f"q_proj={c['q_proj']}",
+                         f"kb={b(c['kb'])}", f"vb={b(c['vb'])}", f"s={fbits(f32(c['s']))}",
+                         "sdpa_scale=" + {"default": "none", "custom": fbits(f32(0.3)), "none": fbits(1.0)}[c["sdpa_scale"]],
+                         f"mask={b(c['mask'])}"])
+
+    @staticmethod
+    def fuse(model):
+        from onnxscript.rewriter.ort_fusions._core import fuse_xformers
+
+        _, n = fuse_xformers(model)
+        return f"{n['sdpa']}/{n['mha1'] + n['mha2']}/{n['mha_scale']}/{n['mha_bias']}/{n['attention']}"
+
+    @staticmethod
+    def feeds(c, rng):
+        B, S, H, Dh = c["B"], c["S"], c["H"], c["Dh"]
+        D = H * Dh
+        return {"qm": rand_arr(rng, [B, S, D], "f32"), "km": rand_arr(rng, [B, S, D], "f32"), "vm": rand_arr(rng, [B, S, D], "f32"),
+                "qbias": rand_arr(rng, [D], "f32"), "kbias": rand_arr(rng, [D], "f32"), "vbias": rand_arr(rng, [D], "f32"),
+                "mask": rand_arr(rng, [1, 1, S, S], "f32")}
+
+    @staticmethod
+    def out_dt(c):
+        return "f32"
+
+
+FAMILIES = {f.name: f for f in [Rms, Skip, Gelu, BiasGelu, Softmax, Fmm, Rope, Sdpa, Mha, I2g, Attn, Gqa, Pqkv, Mhab, Pipe]}
